@@ -84,7 +84,8 @@ def call(fn):
 
 
 def qdom(S, v):
-    return all(S["kind"][e - 1] != "N" and len(S["ends"][e - 1]) == 2 for e in S["vl"][v - 1])
+    n = len(S["kind"])
+    return all(1 <= e <= n and S["kind"][e - 1] != "N" and len(S["ends"][e - 1]) == 2 for e in S["vl"][v - 1])
 
 
 def probe(q, a, res, f=NOF, g=NOF, M=(-1,), attr=()):
